@@ -218,7 +218,8 @@ pub fn scenario_expiry(seed: u64, rep: &mut Report) {
     let rt = runtime(seed);
     rt.block_on(async {
         let mut rng = Rng::new(seed ^ 0x15E);
-        let cfg = RigConfig { session_timeout: TTL, session_cache_capacity: 100, ..Default::default() };
+        let cfg = RigConfig { session_timeout: TTL, session_cache_capacity: 100, request_retries: 1 + rng.below(3) as u8, ..Default::default() };
+        let transmissions = cfg.request_retries;
         let mut e = Engine::new(seed, cfg, 1, None).await;
         e.wru_delays = vec![None]; // never answer who-are-you queries: the cache is not disturbed by probes
         e.app_responds = true;
@@ -235,8 +236,24 @@ pub fn scenario_expiry(seed: u64, rep: &mut Report) {
         let old_gens = e.peers[0].mon_keys.len();
         // optional refreshing traffic after a short pause
         let mut last_use = Instant::now();
-        let refresh = rng.below(3);
-        if refresh > 0 {
+        let refresh = if transmissions >= 2 && rng.chance(1, 3) { 3 } else { rng.below(3) };
+        let mut idle_choice: Option<u64> = None;
+        if refresh == 3 {
+            // a request the peer never answers: its first transmission is a use of the session,
+            // the retransmission of the same packet 60 ms later is not
+            e.peers[0].behaviour.respond = false;
+            e.submit(0, 1, true);
+            e.drain().await;
+            last_use = Instant::now();
+            std::thread::sleep(Duration::from_millis(60));
+            let t = e.rig.cfg_request_timeout;
+            e.run_for(t + Duration::from_millis(50)).await;
+            let again = e.trace.iter().filter(|t| matches!(&t.ev, Ev::Sent { class: OutClass::Message { msg: Some(m), .. }, .. } if m.is_request())).count();
+            if again >= 2 {
+                rep.count("retransmissions_while_idle");
+            }
+            idle_choice = Some(*rng.pick(&[45u64, 45, 130]));
+        } else if refresh > 0 {
             std::thread::sleep(Duration::from_millis(25));
             if refresh == 1 {
                 e.peer_request(0, 5); // inbound traffic
@@ -246,7 +263,7 @@ pub fn scenario_expiry(seed: u64, rep: &mut Report) {
             e.drain().await;
             last_use = Instant::now();
         }
-        let idle = *rng.pick(&[10u64, 30, 130, 200]);
+        let idle = idle_choice.unwrap_or_else(|| *rng.pick(&[10u64, 30, 130, 200]));
         std::thread::sleep(Duration::from_millis(idle));
         // ---- probe ----
         e.peers[0].behaviour.challenge_unknown = false;
@@ -254,11 +271,7 @@ pub fn scenario_expiry(seed: u64, rep: &mut Report) {
         let mark = e.trace.len();
         let outbound = rng.bool();
         let idle_lo = last_use.elapsed(); // at least this long since the last use
-        if outbound {
-            e.submit(0, 1, true);
-        } else {
-            e.peer_request(0, 1);
-        }
+        let probe_id = if outbound { e.submit(0, 1, true) } else { e.peer_request(0, 1) };
         e.drain().await;
         let idle_hi = last_use.elapsed();
         rep.evaluations += 1;
@@ -266,11 +279,11 @@ pub fn scenario_expiry(seed: u64, rep: &mut Report) {
         let definitely_expired = idle_lo > TTL + margin;
         let definitely_alive = idle_hi + margin < TTL;
         let used = e.trace[mark..].iter().any(|t| match &t.ev {
-            Ev::Sent { class: OutClass::Message { gen, msg: Some(m), .. }, .. } => outbound && *gen < old_gens && m.is_request(),
+            Ev::Sent { class: OutClass::Message { gen, msg: Some(m), .. }, .. } => outbound && *gen < old_gens && m.is_request() && m.id() == &probe_id[..],
             Ev::Out(HandlerOut::Request(..)) => !outbound,
             _ => false,
         });
-        let refresh_name = ["none", "inbound", "outbound"][refresh as usize];
+        let refresh_name = ["none", "inbound", "outbound", "outbound request left unanswered and retransmitted"][refresh as usize];
         let w = json!({"scenario_seed": seed.to_string(), "kind": "expiry", "direction": if outbound { "outbound request" } else { "inbound message under the old keys" }, "refresh": refresh_name, "idle_ms": [idle_lo.as_millis() as u64, idle_hi.as_millis() as u64], "ttl_ms": 80, "trace": e.dump_trace(12)});
         if definitely_expired {
             rep.count("probes_after_expiry");
